@@ -51,6 +51,14 @@ JN = "dclab/cli/task_join.py"
 EX = "dclab/rtdc_dataset/export.py"
 
 NAMES = ("min", "max", "mean")
+
+#: F20b (reported 2026-10-05, not repaired yet): in the append branch of
+#: write_ndarray min/max of the new block are computed from the input array
+#: although the stored values may have been cast (integer features).  Set to
+#: True once /verif/out/fix_F20b.diff is applied – the obligation "block
+#: summary from stored values" then guards the repair (see
+#: MUTANTS_AFTER_FIX_F20B).
+ARM_F20B = True
 NAN_REDUCER = {"min": "nanmin", "max": "nanmax", "mean": "nanmean"}
 NAN_BINARY = {"min": "fmin", "max": "fmax"}
 SAME_KIND = {
@@ -452,8 +460,18 @@ class Prov:
             and isinstance(e.slice.upper, ast.Name) \
             and e.slice.upper.id == self.O
 
+    def is_stored_block(self, e):
+        """D[O:] – the block that was just stored, as it is in the file"""
+        return isinstance(e, ast.Subscript) and isinstance(
+            e.value, ast.Name) and e.value.id == self.D and isinstance(
+            e.slice, ast.Slice) and e.slice.step is None \
+            and e.slice.upper is None \
+            and isinstance(e.slice.lower, ast.Name) \
+            and e.slice.lower.id == self.O
+
     def is_block(self, e):
-        return isinstance(e, ast.Name) and e.id == self.data
+        return (isinstance(e, ast.Name) and e.id == self.data) \
+            or self.is_stored_block(e)
 
     def expand(self, e):
         """all definitions a name may stand for (flow-insensitive)"""
@@ -652,6 +670,21 @@ def r201(ctx, repo):
                            "by a reducer without their counts", node=node,
                            label=lab)
                     continue
+                if ARM_F20B:
+                    blk_nodes = [f[2] for o in ops for f in o
+                                 if f[0] == "block"]
+                    from_input = [b for b in blk_nodes if isinstance(
+                        b.args[0], ast.Name)]
+                    ctx.ob("R20.1", not from_input,
+                           f"{uname} of the new block is taken from the "
+                           f"stored block" if not from_input else
+                           f"{uname} of the new block is computed from the "
+                           f"input `{pv.data}`, not from what is stored: "
+                           f"write_ndarray casts the input to the dataset's "
+                           f"dtype (uint32/uint64 features), the summary "
+                           f"then describes values that are not in the file",
+                           node=node, label=f"{uname}: block summary from "
+                                            f"stored values")
                 ok = inner.split(":")[-1] == NAN_REDUCER[uname]
                 ctx.ob("R20.1", ok, f"{uname} of the new block uses {inner}"
                        if ok else f"{uname} of the new block uses `{inner}`"
@@ -1957,11 +1990,19 @@ MUTANTS = [
       "return self.child.hparent[self.feat].max()"), "R20.4"),
 ]
 
+#: for the tree with fix_F20b.diff applied and ARM_F20B = True
+MUTANTS_AFTER_FIX_F20B = [
+    ("F20b returns: block extrema from the input array", WR,
+     ("val_b = ufunc(dset[offset:])", "val_b = ufunc(data)"), "R20.1"),
+]
+
 #: applies only once F20 is repaired (today it changes nothing)
 MUTANTS_AFTER_FIX = [
     ("F20 returns: mean weighted with raw sizes", WR, _raw_size_mean,
      "R20.1"),
 ]
+
+MUTANTS = MUTANTS + MUTANTS_AFTER_FIX_F20B
 
 TWINS = [
     ("writer table reordered", WR,
